@@ -67,12 +67,24 @@ pub fn run_line(prog: &Prog, base: &Sess, line: &str) -> RunOut {
     }
 }
 
-/// the part of the sink output after the echoed line's CRLF and before the final prompt
+/// The output rows between the submitted line and the next prompt, judged on the emulated screen
+/// (not on bytes): the first completed row must be prompt + line, the current row the prompt.
+/// Returned as the rows joined by CR LF (each followed by CR LF), "" when there is none.
 pub fn body_of(out: &str, line: &str) -> Option<String> {
-    let head = format!("{}\r\n", line);
-    let rest = out.strip_prefix(&head)?;
-    let body = rest.strip_suffix(PROMPT)?;
-    Some(body.to_string())
+    let sc = crate::base::screen_effect(PROMPT, "", 0, out.as_bytes());
+    if sc.unknown.is_some() {
+        return None;
+    }
+    let first = format!("{}{}", PROMPT, line);
+    if sc.done.first().map(|s| s.as_str()) != Some(first.trim_end_matches(' ')) || sc.cur != PROMPT.trim_end_matches(' ') || sc.col != PROMPT.chars().count() {
+        return None;
+    }
+    let mut b = String::new();
+    for r in &sc.done[1..] {
+        b.push_str(r);
+        b.push_str("\r\n");
+    }
+    Some(b)
 }
 
 fn check_case(prog: &Prog, decls: &Decls, base: &Sess, tokens: &[String], o: &mut EnumOutcome) {
